@@ -2,7 +2,7 @@ CONSTANTS
  Producers = {"p1","p2","p3"}
  K = 1
  Shapes <- ShMax
- MaxFaults = 1
+ MaxFaults = 0
  MaxCrashes = 1
  MaxIdxLoss = 0
  SyncFlush = TRUE
